@@ -71,6 +71,10 @@ impl super::DebugSession {
             ],
         });
         self.send_success_body(req, body)?;
+        if self.terminated {
+            // a repeated `initialize` after the end of the debuggee: no event after `terminated`
+            return Ok(());
+        }
         self.send_event("initialized")
     }
 
